@@ -139,7 +139,10 @@ def optimal(
             count_item_in_bin = int(counts[iitem][ibin].x)
             for _ in range(count_item_in_bin):
                 binner.add_item_to_bin(output, items[iitem], ibin)
-    binner.sort_by_ascending_sum(output)
+    if len(set(weights)) <= 1:
+        # With different weights, bin i must remain the bin associated with weights[i]
+        # (the bins are then in ascending order of weighted sum, by the constraint above).
+        binner.sort_by_ascending_sum(output)
     return output
 
 
